@@ -37,6 +37,10 @@ CLAIMS = {
   text="thin: the bookkeeping rule behind recover, for all states: callRecover is honoured exactly when it is called directly by a deferred function (Defer flag) of the function that is panicking (DeferOfFun == PanicFun != nil) - then it consumes the panic (Panic and PanicFun cleared); otherwise it returns nil and leaves the panic untouched ('does not stop the panic'); pushDefer marks a function as the panicking one only while panicking and popDefer restores the enclosing deferred-call context; maybeRepanic lets the panic go on exactly when no deferred call recovered it",
   note="trusted: go/ssa front end, SMT solvers, reflect accessor specifications, Debugf prints only. Not covered: order of deferred calls, results, escaping panics for whole programs (compositions of the executor), Comp.Defer, the recovered value when not nil",
   ref="DESIGN.md section 0.1, section 5 C07"),
+ "C13": dict(
+  text="thin: the interrupt path function by function, for all states: Run.interrupt records the request as the pending asynchronous signal (SigInterrupt, or SigDebug when both debugger options are set); spinInterrupt - the statement that replaces every statement while a signal is pending - never hands control back with an interrupt pending: it ends in the interrupt panic with the signal cleared; applyAsyncSignal clears the pending signal on every exit and returns normally only for 'none' and 'debug'; restore applies a pending interrupt when a function exits",
+  note="trusted: go/ssa front end, SMT solvers. Not covered: the bound on the number of statements executed before the poll (unrolled executor loops), asynchronous delivery from another goroutine (sequential model), 'same results afterwards' (C12)",
+  ref="DESIGN.md section 0.1, section 5 C13"),
  "C15": dict(
   text="thin: only the mechanism the property names for functions: a function (or macro) declaration that fails to compile - any panic, from any point after the signature was computed - leaves the name bound to exactly what it was bound to when DeclFunc was entered (the previous function, or nothing), whatever the failed compilation did in between; proved over every panic exit of Comp.DeclFunc with its deferred restore",
   note="trusted: go/ssa front end, SMT solvers, Comp.TypeFunction declares nothing in the enclosing scope, the contract of NewBind (verified under C14). Not covered: variables, constants, types (no roll-back exists: finding F12, hand-confirmed, recorded in DESIGN.md, not derived), methods and generic functions, compile-before-run, type redefinition",
